@@ -26,6 +26,7 @@ type zooSeg struct {
 	want  *model.LSeg
 	bytes []byte // persisted image
 	heavy bool   // megabytes of values or tens of thousands of documents
+	mode  uint32 // chunk mode the segment was written with
 }
 
 type zooMaker struct {
@@ -34,6 +35,12 @@ type zooMaker struct {
 	make  func() (segs []segment.Segment, lsegs []*model.LSeg, drops [][]uint32, merged bool, err error)
 	// first: the member's (first) input batch, for the properties about BUILT segments
 	first func() []model.Doc
+	mode  uint32 // chunk mode of the final merge (0: the adaptive mode 1025)
+	// for members that are one merge of freshly built inputs: the inputs, so that the merge
+	// properties (C02/C03) can run the same merge under their own oracle
+	batches []func() []model.Doc
+	drops   [][]uint32
+	form    int
 }
 
 func zooBuilt(name string, heavy bool, batch func() []model.Doc) zooMaker {
@@ -50,19 +57,24 @@ func zooBuilt(name string, heavy bool, batch func() []model.Doc) zooMaker {
 
 // zooMerged: the listed batches are built (each optionally self-merged first: form 2) and merged.
 func zooMerged(name string, heavy bool, form int, drops [][]uint32, batches ...func() []model.Doc) zooMaker {
-	return zooMaker{name: name, heavy: heavy, first: batches[0], make: func() ([]segment.Segment, []*model.LSeg, [][]uint32, bool, error) {
+	return zooMergedM(name, heavy, form, 1025, drops, batches...)
+}
+
+// zooMergedM: inputs built, and the merge written, under the given chunk mode.
+func zooMergedM(name string, heavy bool, form int, mode uint32, drops [][]uint32, batches ...func() []model.Doc) zooMaker {
+	return zooMaker{name: name, heavy: heavy, first: batches[0], mode: mode, batches: batches, drops: drops, form: form, make: func() ([]segment.Segment, []*model.LSeg, [][]uint32, bool, error) {
 		var segs []segment.Segment
 		var lsegs []*model.LSeg
 		for i, bf := range batches {
 			b := bf()
 			model.SumFreqLen(b)
-			s, err := build(b, 1025)
+			s, err := build(b, mode)
 			if err != nil {
 				return nil, nil, nil, true, fmt.Errorf("input %d: %w", i, err)
 			}
 			ls := model.Build(b)
 			if form != 0 && len(b) > 0 {
-				s, ls, err = inputForm(s, ls, form, 1025)
+				s, ls, err = inputForm(s, ls, form, mode)
 				if err != nil {
 					return nil, nil, nil, true, fmt.Errorf("input form %d: %w", i, err)
 				}
@@ -197,7 +209,24 @@ func zooMakers() []zooMaker {
 					if (f+d)%3 == 0 {
 						continue
 					}
-					doc = append(doc, model.Field{N: name, Len: 1 + f%3, Terms: []model.Term{{T: fmt.Sprintf("t%d", f%7), Freq: 1 + f%3}}, DV: f%10 == 0, St: f%25 == 0, Val: []byte(name)})
+					tm := model.Term{T: fmt.Sprintf("t%d", f%7), Freq: 1 + f%3}
+					if f%7 != 0 {
+						// locations in fields with high ids; every fifth names a following field
+						tm.Locs = []model.Loc{{P: f + 1, S: f, E: f + 2}}
+						if f%5 == 0 {
+							o := f + 1 // the next field this very document carries (the contract: a location names a field of the batch - also of the batch of survivors)
+							if (o+d)%3 == 0 || o >= nf {
+								o++
+							}
+							if o < nf && !(long && o%50 == 0) {
+								tm.Locs = append(tm.Locs, model.Loc{F: fmt.Sprintf("f%03d", o), P: 1, S: 0, E: 1})
+							}
+						}
+						if tm.Freq < len(tm.Locs) {
+							tm.Freq = len(tm.Locs) // input contract: freq >= number of locations
+						}
+					}
+					doc = append(doc, model.Field{N: name, Len: 1 + f%3, Terms: []model.Term{tm}, DV: f%10 == 0, St: f%25 == 0, Val: []byte(name)})
 					if f%40 == 5 {
 						// a second and third instance of the same field in this document (field ids far above 64)
 						doc = append(doc, model.Field{N: name, Len: 1, Terms: []model.Term{{T: "again", Freq: 1}}, DV: f%10 == 0}, model.Field{N: name, Len: 1, Terms: []model.Term{{T: fmt.Sprintf("t%d", f%7), Freq: 1}}, DV: f%10 == 0})
@@ -210,6 +239,7 @@ func zooMakers() []zooMaker {
 	}
 	out = append(out, zooBuilt("wide-300", false, wide(300, true)))
 	out = append(out, zooMerged("wide-140+partner", false, 0, [][]uint32{{0}, nil}, wide(140, false), partner))
+	out = append(out, zooMerged("wide-16400+partner", true, 0, [][]uint32{nil, {1}}, wide(16400, false), partner))
 	// 6b. SIZE SWEEPS: one quantity at a time walked across the places where encodings change width
 	// (varint lengths at 2^7, 2^14, 2^21, 2^28; one-byte counters at 255/256; 128-document blocks and
 	// 1024-document chunks; 2^16) - each value and both neighbours
@@ -286,7 +316,7 @@ func zooMakers() []zooMaker {
 		}, partner))
 	}
 	// (e) number of documents (stored blocks of 128, doc-value chunks of 1024, 2^14)
-	for _, N := range around(128, 256, 1024, 2048, 16384) {
+	for _, N := range around(128, 256, 1024, 2048, 4096, 8192, 16384) {
 		N := N
 		out = append(out, zooMerged(fmt.Sprintf("size-docs-%d", N), N > 5000, 0, [][]uint32{{0}, nil}, func() []model.Doc {
 			b := make([]model.Doc, N)
@@ -298,6 +328,23 @@ func zooMakers() []zooMaker {
 			}
 			return b
 		}, partner))
+	}
+	// (e2) the same batches under the fixed chunk modes 1, 2 and 3: the number of CHUNKS of a postings
+	// list crosses 127/128 and 255/256 (chunk tables, one-byte counts)
+	for _, m := range []uint32{1, 2, 3} {
+		for _, N := range []int{127, 128, 129, 255, 256, 257, 383, 384, 385, 511, 513, 768} {
+			N, m := N, m
+			out = append(out, zooMergedM(fmt.Sprintf("size-chunks-mode%d-docs-%d", m, N), false, 0, m, [][]uint32{{0}, nil}, func() []model.Doc {
+				b := make([]model.Doc, N)
+				for i := range b {
+					b[i] = model.Doc{gen.IDField("c", i), {N: "a", Len: 1, Terms: []model.Term{{T: "x", Freq: 1 + i%2, Locs: []model.Loc{{P: 1, S: i % 300, E: i%300 + 1}}}}}}
+					if i%2 == 1 || i == N-1 {
+						b[i] = append(b[i], model.Field{N: "a", Len: 1, Terms: []model.Term{{T: "y", Freq: 1}}})
+					}
+				}
+				return b
+			}, partner))
+		}
 	}
 	// (f) frequencies and location numbers at varint width changes
 	for _, V := range around(128, 16384, 1<<21, 1<<28, 1<<31, 1<<32, 1<<35) {
@@ -312,6 +359,37 @@ func zooMakers() []zooMaker {
 				{gen.IDField("q", 2), {N: "a", Len: 1, Terms: []model.Term{{T: "x", Freq: V + 1}}}},
 			}
 		}, partner))
+	}
+	// (g) one document per combination of the WIDTHS of the two length prefixes of a stored record
+	// (meta: 1-3 bytes, i.e. up to ~25 / ~3000 / 5000 values; data: 1-4 bytes, i.e. < 128 B, < 16 KiB,
+	// < 2 MiB, >= 2 MiB), each between two ordinary documents
+	for _, form := range []int{0, 1} {
+		form := form
+		mkw := func() []model.Doc {
+			var b []model.Doc
+			n := 0
+			for _, nv := range []int{1, 60, 5000} {
+				for _, total := range []int{100, 9000, 300000, 2200000} {
+					sz := total / nv
+					doc := model.Doc{gen.IDField("w", n)}
+					for k := 0; k < nv; k++ {
+						v := make([]byte, sz)
+						for i := range v {
+							v[i] = byte('a' + (i+k+n)%23)
+						}
+						doc = append(doc, model.Field{N: []string{"s", "a", "u"}[k%3], St: true, Val: v})
+					}
+					b = append(b, doc, model.Doc{gen.IDField("w", n+1), {N: "a", Len: 1, St: true, Val: []byte("plain"), Terms: []model.Term{{T: "x", Freq: 1}}}})
+					n += 2
+				}
+			}
+			return b
+		}
+		if form == 0 {
+			out = append(out, zooBuilt("stored-prefix-widths", true, mkw))
+		} else {
+			out = append(out, zooMerged("stored-prefix-widths-merged", true, 0, [][]uint32{{1}, nil}, mkw, partner))
+		}
 	}
 	// 7. 66 000 documents (document numbers cross 65 536)
 	out = append(out, zooBuilt("huge-66000", true, func() []model.Doc {
@@ -345,7 +423,7 @@ func zooEach(c *explore.Ctx, withHeavy bool, f func(idx int64, z *zooSeg)) {
 			c.Violate(scope, idx, sigOf(c.Prop, "zoo-inputs", "error: "+err.Error()), err.Error(), mk.name)
 			continue
 		}
-		z := &zooSeg{name: mk.name, heavy: mk.heavy}
+		z := &zooSeg{name: mk.name, heavy: mk.heavy, mode: 1025}
 		if !merged {
 			z.seg, z.want = segs[0], lsegs[0]
 			b, _, err := persist(z.seg)
@@ -366,7 +444,11 @@ func zooEach(c *explore.Ctx, withHeavy bool, f func(idx int64, z *zooSeg)) {
 					}
 				}
 			}
-			mb, _, _, err := merge(segs, bms, 1025)
+			z.mode = 1025
+			if mk.mode != 0 {
+				z.mode = mk.mode
+			}
+			mb, _, _, err := merge(segs, bms, z.mode)
 			if err != nil {
 				c.Violate(scope, idx, sigOf(c.Prop, "zoo-merge", "error: "+err.Error()), err.Error(), mk.name)
 				continue
